@@ -60,6 +60,24 @@ def gen_script_op(rng, root, depth=0):
         return {'s': 'block', 'opts': gen_good(rng), 'n': rng.choice([1, 2, 3]), 'boom': rng.random() < 0.35}
     if r < 0.48 and depth < 3:
         return {'s': 'block_bad', 'opts': O.enc_opts(rng.choice(BAD))}
+    if r < 0.50:
+        # edits whose RESULT depends on a thread default (set_norm / norm, op_side): emptying a Set, deleting a
+        # Compare / BoolOp operand, all through entry points that rely on the defaults
+        c = []
+        for path, node, parent, field, idx in O.all_nodes(tree):
+            if isinstance(node, ast.Set):
+                c.append({'k': 'put_slice', 'path': [list(p) for p in path], 'field': 'elts', 'start': 0, 'stop': 'end', 'opts': {}, 'code': {'form': 'none'}})
+                c.append({'k': 'cut_slice', 'path': [list(p) for p in path], 'field': 'elts', 'start': 0, 'stop': 'end', 'opts': {}})
+            elif isinstance(node, ast.Compare):
+                c.append({'k': 'put_slice', 'path': [list(p) for p in path], 'field': '_all', 'start': 1, 'stop': 2, 'opts': {}, 'code': {'form': 'none'}})
+            elif isinstance(node, ast.BoolOp) and len(node.values) > 2:
+                c.append({'k': 'put_slice', 'path': [list(p) for p in path], 'field': 'values', 'start': 1, 'stop': 2, 'opts': {}, 'code': {'form': 'none'}})
+        if c:
+            op = rng.choice(c)
+            if rng.random() < 0.3:
+                op['opts'] = gen_good(rng)
+                op['opts'].pop('raw', None)
+            return {'s': 'edit', 'op': op}
     if r < 0.70:
         nodes = O.all_nodes(tree)
         if not nodes:
@@ -83,7 +101,8 @@ def gen_script_op(rng, root, depth=0):
 class Worker:
     """Executes one thread's script on its own tree and records per-op results."""
 
-    def __init__(self, program, script=None, rng=None, n_ops=0):
+    def __init__(self, program, script=None, rng=None, n_ops=0, explicit=False):
+        self.explicit = explicit  # metamorphic twin: every call gets the thread's current effective defaults explicitly
         self.program = program
         self.script_in = script
         self.rng = rng
@@ -188,6 +207,8 @@ class Worker:
                 self.model = entry
         elif s == 'copy':
             o = O.dec_opts(op['opts'])
+            if self.explicit:
+                o = dict(self.model, **o)
             try:
                 f = O.resolve_f(self.root, op['path'])
                 r = f.copy(**o)
@@ -197,8 +218,11 @@ class Worker:
             except Exception as e:
                 rec = ('copy_exc', O.exc_repr(e))
         elif s == 'edit':
+            eop = op['op']
+            if self.explicit and 'opts' in eop and eop.get('k') not in ('put_docstr', 'put_line_comment'):  # these two have their own trivia default
+                eop = dict(eop, opts=O.enc_opts(dict(self.model, **O.dec_opts(eop.get('opts')))))
             try:
-                r = O.apply_edit(self.root, op['op'])
+                r = O.apply_edit(self.root, eop)
                 rec = ('edit', O.result_repr(r))
             except O.Skip:
                 rec = ('edit_skip', None)
@@ -357,6 +381,9 @@ class ThreadRun:
             n = rng.choice([2, 2, 3, 4])
             cfg['mean_quantum'] = rng.choice([5, 20, 50, 150, 500])
             programs = [progen.gen_program(rng, cfg, self.stats) for _ in range(n)]
+            for j in range(n):  # something option-sensitive to work on
+                if rng.random() < 0.6:
+                    programs[j] = programs[j].rstrip('\n') + '\n' + rng.choice(['{a, b}', 'x = {a}', 'a < b < c', 'a and b and c', 'f({a, b}, c < d <= e)']) + '\n'
             n_ops = [rng.randint(3, 10) for _ in range(n)]
             seeds = [rng.getrandbits(48) for _ in range(n)]
             scripts = None
@@ -413,6 +440,22 @@ class ThreadRun:
                     self.stats['op_' + rec[0]] += 1
             if modifying_registry() and self.viol is None:
                 self.fail('lock_left_at_quiescence', f'{len(modifying_registry())} entries')
+            # 3. metamorphic twin: the same scripts with the thread's effective defaults passed explicitly on every call
+            #    that takes options - a per-thread default must act exactly like the same option given to the call
+            if self.viol is None:
+                for i in range(n):
+                    w = Worker(programs[i], script=copy.deepcopy(scripts_out[i]), explicit=True)
+                    run_alone(w)
+                    if w.error:
+                        raise RuntimeError('harness error in explicit-options run:\n' + w.error)
+                    a, e = alone[i].record, w.record
+                    self.stats['explicit_twin_ops'] += len(e)
+                    if a != e:
+                        j = next((k for k in range(min(len(a), len(e))) if a[k] != e[k]), min(len(a), len(e)))
+                        self.fail('default_option_acts_differently_from_explicit_option',
+                                  f'thread {i} op {j}: relying on defaults={a[j] if j < len(a) else None!r} explicit={e[j] if j < len(e) else None!r} '
+                                  f'script op={scripts_out[i][j] if j < len(scripts_out[i]) else None!r}', j)
+                        break
             log = [[w.record for w in alone], sched.decisions]
         finally:
             try:
